@@ -131,15 +131,16 @@ class OpAddNe(OpAdd):
 
         target = self.path.parts[-1]
         if isinstance(parent, MutableSequence):
-            if obj is UNDEFINED:
-                parent.append(copy.deepcopy(self.value))
-            else:
-                parent.insert(
-                    _array_index(target, parent, insert=True),
-                    copy.deepcopy(self.value),
-                )
-        elif isinstance(parent, MutableMapping) and str(target) not in parent:
-            parent[str(target)] = copy.deepcopy(self.value)
+            parent.insert(
+                _array_index(target, parent, insert=True), copy.deepcopy(self.value)
+            )
+        elif isinstance(parent, MutableMapping):
+            if str(target) not in parent:
+                parent[str(target)] = copy.deepcopy(self.value)
+        else:
+            raise JSONPatchError(
+                f"unexpected operation on {parent.__class__.__name__!r}"
+            )
         return data
 
 
